@@ -783,4 +783,67 @@ const pageMask = pageSize - 1"""),
       old="""	id, _ := w.resources.registry.ComponentID(tp)
 	return ResID{id: id}""", new="""	id, _ := w.registry.ComponentID(tp)
 	return ResID{id: id}"""),
+
+ # ---------------- round-2 rules ----------------
+ dict(prop="C18", name="include-only filter under !exclusive instead of noExclude", kind="M", file=GC, expect="C18.R10",
+      old="""	if targetType == nil {
+		if noExclude {""",
+      new="""	if targetType == nil {
+		if !exclusive {"""),
+ dict(prop="C18", name="noExclude by De Morgan (benign)", kind="B", file=GC,
+      old="""	noExclude := !exclusive && len(exclude) == 0""",
+      new="""	noExclude := !(exclusive || len(exclude) != 0)"""),
+ dict(prop="C18", name="relation filter around include mask when noExclude (benign)", kind="B", file=GC,
+      old="""			q.relationFilter = ecs.NewRelationFilter(&q.maskFilter, target)
+			q.filter = &q.relationFilter""",
+      new="""			if noExclude {
+				q.relationFilter = ecs.NewRelationFilter(q.maskFilter.Include, target)
+			} else {
+				q.relationFilter = ecs.NewRelationFilter(&q.maskFilter, target)
+			}
+			q.filter = &q.relationFilter"""),
+ dict(prop="C05", name="zero target via named local (benign)", kind="B", file=WI,
+      old="""		arch.Init(node, w.archetypeData.Get(archIndex), archIndex, forStorage, layouts, Entity{})""",
+      new="""		noTarget := Entity{}
+		arch.Init(node, w.archetypeData.Get(archIndex), archIndex, forStorage, layouts, noTarget)"""),
+ dict(prop="C05", name="Activate with zero target for a relation node re-use", kind="M", file=AN, expect="C05.R11",
+      old="""		arch.Activate(target, archIndex)""",
+      new="""		arch.Activate(Entity{}, archIndex)"""),
+ dict(prop="C17", name="capacity from a named length (benign)", kind="B", file=W,
+      old="""	capacity := capacity(len(data.Entities), w.config.CapacityIncrement)""",
+      new="""	n := len(data.Entities)
+	capacity := capacity(n, w.config.CapacityIncrement)"""),
+ dict(prop="C17", name="dump via make+copy (benign)", kind="B", file=W,
+      old="""		Entities:  append([]Entity{}, w.entityPool.entities...),""",
+      new="""		Entities:  append(make([]Entity, 0, len(w.entityPool.entities)), w.entityPool.entities...),"""),
+ dict(prop="C03", name="running total written as t + count (benign)", kind="B", file=Q,
+      old="""			a := arches.Get(j)
+			count += a.Len()""",
+      new="""			a := arches.Get(j)
+			count = a.Len() + count"""),
+ dict(prop="C03", name="batch count overwritten", kind="M", file=Q, expect="C03.R6",
+      old="""			count += batch.EndIndex[j] - batch.StartIndex[j]""",
+      new="""			count = batch.EndIndex[j] - batch.StartIndex[j]"""),
+ dict(prop="C01", name="graph edges set in the other order (benign)", kind="B", file=WI,
+      old="""			next, _ := w.findOrCreateArchetypeSlow(mask, relation, hasRelation)
+			next.neighbors.Set(id.id, curr)
+			curr.neighbors.Set(id.id, next)
+			curr = next
+		}
+	}
+	for _, id := range add {""",
+      new="""			next, _ := w.findOrCreateArchetypeSlow(mask, relation, hasRelation)
+			curr.neighbors.Set(id.id, next)
+			next.neighbors.Set(id.id, curr)
+			curr = next
+		}
+	}
+	for _, id := range add {"""),
+ dict(prop="C16", name="unregister narrows len without -1", kind="M", file=RG, expect="C16.R8",
+      old="""	newID := uint8(len(r.Components) - 1)""",
+      new="""	newID := uint8(len(r.Components)) - 1"""),
+ dict(prop="C15", name="Reset drops the listener", kind="M", file=W, expect="C15.R1",
+      old="""	w.resources.reset()""",
+      new="""	w.resources.reset()
+	w.listener = nil"""),
 ]
